@@ -1,4 +1,4 @@
-// VERIF: lib rc quick_shards=1
+// VERIF: lib rc quick_shards=1 fuzz=options_random_part2
 // C03 - parser shapes, part 2 of 8 (see c03_options.hpp).
 #include "c03_options.hpp"
 namespace
